@@ -17,7 +17,7 @@ pub static DEF: PropDef = PropDef {
     level: "exploration",
     engine: "meta-cas",
     rule: "one run = one generated history of 6..25 register (incl. re-registration of a path with another interval) / delete / complete_compaction operations applied identically to a real LocalMetadataClient and a real ObjectStoreMetadataClient, with 3..6 range lookups after every operation on both backends and on a second object-store client whose 60 s catalog cache is aged in virtual time; intervals and ranges drawn from hour boundaries +-1 ns, negative timestamps, zero-length and multi-day spans, inverted ranges; half of the runs inject store request failures into mutations (failed mutation must leave lookups exact); distinct = distinct hash of the operation/lookup history; non-trivial = completed AND the history contained a multi-bucket chunk, a boundary-exact touch or a re-registration",
-    quick_runs: 8000,
+    quick_runs: 15000,
     thorough_runs: 200_000,
     run_cap_ms: 20_000,
     scen,
